@@ -31,7 +31,7 @@
     (v) shape/frame lemmas of the other operations. *)
 From DV Require Import Model.Base Model.NameCheck Model.Parser Model.Header Model.Readers Model.Uncompress
   Model.Mutate Model.Compress Model.Renamer Spec.PacketSpec Spec.RecordSpec Spec.PlainSpec Proofs.Hoare Proofs.HeaderBits Proofs.InsertLemmas Proofs.EdnsPlain Proofs.WalkSkip
-  Proofs.PlainWf Proofs.ViewAfter Proofs.InsertSpec Proofs.HeaderInv Proofs.CursorHist Proofs.DecompressFirst Proofs.FreshHist Proofs.DeleteInv Proofs.SetNameInv Proofs.WalkInv Proofs.RenameCursor.
+  Proofs.PlainWf Proofs.ViewAfter Proofs.InsertSpec Proofs.HeaderInv Proofs.CursorHist Proofs.DecompressFirst Proofs.FreshHist Proofs.DeleteInv Proofs.SetNameInv Proofs.WalkInv Proofs.RenameCursor Spec.NameSpec Proofs.RenameSpec Proofs.RenameContent.
 
 Theorem C08_decompression_keeps_edns_summary : forall p v q v',
   bytes_ok p -> parse p = Ok v -> uncompress p = Ok q -> parse q = Ok v' ->
@@ -323,3 +323,15 @@ Theorem C08_next_after_rename : forall nm v sec l1 r x l2 s' qls qt lA lN lR,
       Ok (match l2' with [] => None | rx2 :: l3 => Some (cur_on sec (fst rx2) (length l3)) end).
 Proof. exact rename_then_next. Qed.
 Print Assumptions C08_next_after_rename.
+
+(** the whole-packet rename on a packet as the parser returned it: when it succeeds, the object is exactly what the parser
+    returns for the new bytes - every offset, the whole EDNS summary with the advertised payload size (the OPT record is
+    carried over), the may-be-compressed flag set, the cached question dropped.  The new object is therefore again one of
+    those every theorem about parsed packets starts from (C11_parsed_packets_are_such_objects, the C08_histories_from_parse theorems). *)
+Theorem C08_rename_is_fresh_parse : forall p v it sl tl sfx s', bytes_ok p -> parse p = Ok v ->
+  Forall lab sl -> Forall lab tl -> sl <> [] -> tl <> [] -> bytes_ok (wire_of_labels tl) ->
+  length (wire_of_labels sl) <= 255 -> length (wire_of_labels tl) <= 255 ->
+  m_rename (wire_of_labels tl) (wire_of_labels sl) sfx (v, it) = (s', Ok tt) ->
+  bytes_ok (pp_packet (fst s')) /\ parse (pp_packet (fst s')) = Ok (fst s').
+Proof. exact rename_fresh_is_parsed. Qed.
+Print Assumptions C08_rename_is_fresh_parse.
